@@ -1,7 +1,16 @@
 // C04 — evaluation keys re-encrypt faithfully for every key parameterisation.
+//
+// The real KeyGenerator / Evaluator / DomainSwitcher / RingPackingEvaluator are driven over modulus
+// chain shapes × evaluation-key parameters × operations × every Galois element × ciphertext level ×
+// NTT flag × aliasing; each output is judged by an independent phase computation under the TARGET key
+// (package verif/lib/rk: CRT + integer schoolbook, ring-type aware) against the exactly transformed
+// input phase, with a worst-case noise bound derived from the key's decomposition parameters
+// (bound.go). Compressed keys are expanded and used, and compared bit for bit with the key generated
+// uncompressed from the same randomness (compress.go).
 package main
 
 import (
+	"fmt"
 	"time"
 
 	"github.com/tuneinsight/lattigo/v6/ring"
@@ -14,28 +23,76 @@ func scenarios(tier string) []engine.Scenario {
 	if tier == "thorough" {
 		bound, boundAuto = 3, 2
 	}
-	var ks, auto, rd, br []engine.Scenario
+	// Scenario i runs on worker i mod 16: emitted family by family so that each family (= similar cost)
+	// is spread over all workers.
+	var ks, auto, rd, br, cp, pk []engine.Scenario
 	for _, ch := range chains(tier) {
 		for _, rt := range []ring.Type{ring.Standard, ring.ConjugateInvariant} {
 			ks = append(ks, ksScenario(rt, 4, ch, bound))
 			auto = append(auto, autoScenario(rt, 4, ch, boundAuto))
 			rd = append(rd, ringDegScenario(rt, 5, ch, bound))
+			cp = append(cp, compressScenario(rt, 4, ch, bound))
 		}
 		br = append(br, bridgeScenario(ch, bound))
+		pk = append(pk, packScenario(5, 4, ch, boundAuto))
+		if tier == "thorough" {
+			pk = append(pk, packScenario(6, 4, ch, boundAuto))
+			ks = append(ks, ksScenario(ring.Standard, 5, ch, 2))
+		}
 	}
 	scs := append(auto, ks...)
 	scs = append(scs, rd...)
 	scs = append(scs, br...)
+	scs = append(scs, pk...)
+	scs = append(scs, cp...)
 	return scs
+}
+
+func expect(tier string) []string {
+	e := []string{"ring=Std", "ring=CI", "IsNTT=true", "IsNTT=false", "inPlace=true", "inPlace=false",
+		"operand=uniform", "operand=top-of-range", "ctLevel=below-key-level", "ctLevel=key-level",
+		"compressed=true", "compressed=false", "LevelP=-1", "LevelP=0", "LevelP=1", "LevelP=2", "LevelP=below-max",
+		"LevelQ=max", "LevelQ=below-max", "tail=#P-does-not-divide-#Q",
+		"op=ApplyEvaluationKey/small->large", "op=ApplyEvaluationKey/large->small",
+		"op=DomainSwitcher.RealToComplex", "op=DomainSwitcher.ComplexToReal",
+		"op=Expand==rlk", "op=Expand==gk", "op=Expand==evk"}
+	for _, o := range ksOps {
+		e = append(e, "op="+o)
+	}
+	for _, o := range autoOps {
+		e = append(e, "op="+o)
+	}
+	for _, o := range packOps {
+		e = append(e, "op=RingPacking."+o)
+	}
+	for _, b := range base2Alphabet {
+		e = append(e, fmt.Sprintf("base2=%d", b))
+	}
+	for g := 1; g < 32; g += 2 { // the whole group (Z/32)^* at N=16
+		e = append(e, fmt.Sprintf("galEl/Std=%d", g))
+	}
+	return e
 }
 
 func main() {
 	engine.Main(engine.Check{
-		ID:             "C04",
-		Level:          "exploration",
-		Rule:           "TODO",
+		ID:    "C04",
+		Level: "exploration",
+		Rule: "Per (ring type, modulus-chain shape): ks/* = {ApplyEvaluationKey, Relinearize, GadgetProduct, GadgetProductHoisted, GadgetProductHoistedLazy+ModDown} × every key LevelP × " +
+			"≤2 (quick) / ≤3 (thorough) deviations over {key LevelQ, BaseTwoDecomposition ∈ {0,1,2,7,13,16,30}, Compressed, ciphertext level ≤ key level, IsNTT, out==in, operand kind}; " +
+			"auto/* = {Automorphism, AutomorphismHoisted, AutomorphismHoistedLazy+ModDown} × EVERY Galois element of (Z/2N)^* at N=16 (5^k in the conjugate-invariant ring) × ≤1/≤2 deviations over the same axes; " +
+			"ringdeg/* = ApplyEvaluationKey LogN 4<->5 both ways; bridge/* = ckks.DomainSwitcher both ways; pack/* = RingPackingEvaluator Split/Merge/Expand/Extract/Repack(+naive compositions); " +
+			"compress/* = Expand(compressed) == uncompressed bit for bit for rlk/gk/evk × every LevelP × ≤2/≤3 deviations. Distinct = distinct (operation class, noise magnitude, bound magnitude) outcomes.",
+		Assumptions: []string{
+			"operands are uniformly random ciphertexts (every operation under test is affine-linear in the ciphertext, so the expected phase is an exact function of the input phase) plus a top-of-range operand (all residues q_i−1−j)",
+			"noise bound = worst case implied by the key parameters (bound.go): Σ_digits N·|digit|·B_e / P + rounding·(1 + N·|s_out|∞); combinations whose bound reaches Q/4 are outside the statement (skipped, counted)",
+			"hoisted forms are only called with BaseTwoDecomposition=0 and LevelP≥0 (documented / asserted unsupported otherwise; counted as rejected)",
+			"ciphertext level ≤ key level; out-of-place outputs are fresh; ring packing runs in the NTT domain with uncompressed keys",
+			"compressed vs uncompressed 'same randomness' is arranged per component (same error stream, same seeded uniform stream), see compress.go",
+		},
 		Scenarios:      scenarios,
 		QuickBudget:    140 * time.Second,
 		ThoroughBudget: 25 * time.Minute,
+		Expect:         expect,
 	})
 }
